@@ -489,7 +489,9 @@ func (t *Transition) emitSelfEvents() Result {
 	m := t.Machine
 	ret := Executed
 	var handlerCalled bool
-	for _, s := range t.TargetStates() {
+	// iterate over a copy: partial auto acceptance deletes from the target
+	// states in place
+	for _, s := range slices.Clone(t.TargetStates()) {
 		// only the active states
 		if !t.Machine.Is(S{s}) {
 			continue
